@@ -35,7 +35,7 @@ ASSUMPTIONS = [
     "with anticipated swaps, background unanticipated shocks are dated in the first period only (later surprises change the information set under which the instruments were anticipated)",
     "stacked_time is run in levels only (deviation is a first-order concept)",
     "anchored nonlinear models (stacked_time only): the truth comes from stacked_time; recovered instrument values and paths are not compared (the instruments hitting a target need not be unique), only exogenized points, untouched shocks and the equations on the planned path",
-    "input values at endogenized shock cells are set to zero (the truth value is hidden); tolerance 1e-8 relative (first_order), 1e-6 (stacked_time)",
+    "input values at endogenized shock cells are drawn (zero, a stale non-zero value, or the truth itself): the result must not depend on them; tolerance 1e-8 relative (first_order), 1e-6 (stacked_time)",
 ]
 
 MARGIN = 0.1
@@ -64,7 +64,8 @@ def _case(draw):
     background = draw(st.lists(st.tuples(st.integers(0, n - 1), st.integers(0, N - 1), val, st.booleans()), max_size=3))
     init = draw(st.lists(st.tuples(st.integers(0, n - 1), st.integers(1, 3),
                                    st.floats(-1, 1, allow_nan=False).map(lambda x: round(x, 3))), max_size=4))
-    return {"spec": spec, "N": N, "mode": mode, "pairs": pairs,
+    inst_input = [draw(st.sampled_from([0.0, 0.0, 0.5, -0.3, "truth"])) for _ in pairs]
+    return {"spec": spec, "N": N, "mode": mode, "pairs": pairs, "inst_input": inst_input,
             "background": [list(b) for b in background], "init": [list(i) for i in init],
             "method": method,
             "deviation": draw(st.booleans()),
@@ -106,12 +107,15 @@ def _check(case):
         dev = False         # the nonlinear simulators work on the equations in levels; there is no deviation mode
     # resolve pairs: distinct instruments, distinct targets, equations that have a shock
     pairs, seen_t, seen_i = [], set(), set()
-    for var, tt, shock, ts, v in case["pairs"]:
+    inst_in = {}
+    for pi_, (var, tt, shock, ts, v) in enumerate(case["pairs"]):
         if not shn[shock] or (var, tt) in seen_t or (shock, ts) in seen_i:
             continue
         seen_t.add((var, tt))
         seen_i.add((shock, ts))
         pairs.append((var, tt, shock, ts, v))
+        x_in = (case.get("inst_input") or [0.0] * len(case["pairs"]))[pi_]
+        inst_in[(shock, ts)] = v if x_in == "truth" else x_in
     if not pairs:
         return {"labels": ["no_usable_pair"], "nontrivial": False}
     if mode == "unanticipated":
@@ -190,6 +194,8 @@ def _check(case):
     for (var, tt, shock, ts, v) in pairs:
         nm = spec["names"][var]
         dbP[nm][start + tt] = float(PT[nm].get_data(start + tt)[0, 0])
+        # the input value at an endogenized shock cell is whatever the user left there (zero, a stale value, the truth)
+        dbP[pre + shn[shock]][start + ts] = inst_in[(shock, ts)]
         if mode == "unanticipated":
             if case["api"] == "swap":
                 api("plan:swap_unanticipated", plan.swap_unanticipated, start + tt, (nm, shn[shock]))
@@ -266,6 +272,105 @@ def _check(case):
     return {"labels": ["judged"], "nontrivial": True}
 
 
+# ---------------------------------------------------------------------------
+# Two parameter variants with variant-specific targets
+# ---------------------------------------------------------------------------
+
+@st.composite
+def _variant_case(draw):
+    spec = draw(lm.spec_strategy(max_n=3, meas=(0, 1)))
+    for p in spec["params"]:
+        p["value"] = [p["value"], round(p["value"] * draw(st.sampled_from([0.5, 0.8, 1.2])), 6)]
+    N = draw(st.integers(2, 6))
+    val = st.floats(-2, 2, allow_nan=False).map(lambda x: round(x, 3)).filter(lambda x: abs(x) > 0.05)
+    return {"spec": spec, "N": N, "mode": draw(st.sampled_from(["unanticipated", "anticipated"])),
+            "var": draw(st.integers(0, spec["n"] - 1)), "date": draw(st.integers(0, N - 1)),
+            "values": [draw(val), draw(val)], "method": draw(st.sampled_from(["first_order", "first_order", "stacked_time"])),
+            "deviation": draw(st.booleans())}
+
+
+def _classify_variant(case):
+    return case["values"][0] != case["values"][1], [case["mode"], case["method"], "parameters_differ" if case["spec"]["params"] else "same_parameters"]
+
+
+def _check_variants(case):
+    import copy
+    import irispie as ir
+    col = Collector()
+    spec = case["spec"]
+    for v in range(2):
+        sv = copy.deepcopy(spec)
+        for p in sv["params"]:
+            p["value"] = p["value"][v]
+        if not _in_domain(sv):
+            return {"labels": ["model_not_in_domain"], "nontrivial": False}
+    shn = lm.shock_names(spec)
+    var, date, mode, method = case["var"], case["date"], case["mode"], case["method"]
+    if not shn[var]:
+        return {"labels": ["no_usable_pair"], "nontrivial": False}
+    dev = case["deviation"] and method == "first_order"
+    N = case["N"]
+    start = ir.qq(2020, 1)
+    Lmax, Fmax = lm.max_lag_lead(spec)
+    Lmax = max(Lmax, 1)
+    m = api("build_and_solve", lm.build_model, spec, variant_count=2)
+    span = start >> (start + N - 1)
+    pre = "" if mode == "unanticipated" else "ant_"
+    nm, sh = spec["names"][var], pre + shn[var]
+
+    def base_db():
+        return sd.steady_db(m, spec, start, -Lmax, N + Fmax + 2, dev)
+    # conditioning: own-shock response at the target date, per variant
+    dbr = base_db()
+    dbr[sh][start + date] = 1.0
+    R = api("simulate_response", m.simulate, dbr, span, method="first_order", deviation=dev)
+    B = api("simulate_base", m.simulate, base_db(), span, method="first_order", deviation=dev)
+    for v in range(2):
+        a = float(R[nm].get_data(start + date)[0, v])
+        b = float(B[nm].get_data(start + date)[0, v])
+        imp = (math.log(a) - math.log(b)) if spec["log"] else (a - b)
+        if abs(imp) < 1e-3:
+            return {"labels": ["impact_matrix_ill_conditioned"], "nontrivial": False}
+    dbT = base_db()
+    dbT[sh][start + date] = list(case["values"])             # a list means variants
+    PT = api("simulate_truth", m.simulate, dbT, span, method="first_order", deviation=dev)
+    dbP = base_db()
+    dbP[nm][start + date] = [float(PT[nm].get_data(start + date)[0, v]) for v in range(2)]
+    plan = ir.SimulationPlan(m, span)
+    if mode == "unanticipated":
+        api("plan:swap_unanticipated", plan.swap_unanticipated, start + date, (nm, shn[var]))
+    else:
+        api("plan:swap_anticipated", plan.swap_anticipated, start + date, (nm, "ant_" + shn[var]))
+    kw = dict(method=method, deviation=dev)
+    if method == "stacked_time":
+        kw = dict(method=method, solver_settings=SOLVER)
+    try:
+        PP = m.simulate(dbP, span, plan=plan, **kw)
+    except Exception as exc:  # noqa: BLE001
+        if method == "stacked_time":
+            return {"labels": ["stacked_time_failed:" + type(exc).__name__], "nontrivial": False}
+        col.fail(f"variants:simulate_with_plan:raises:{type(exc).__name__}", f"{exc}\n{lm.source(spec)}")
+        col.done()
+    rtol = 1e-8 if method == "first_order" else 1e-6
+    for v in range(2):
+        pT = sd.Paths(PT, spec, start, 0, N - 1, variant=v)
+        pP = sd.Paths(PP, spec, start, 0, N - 1, variant=v)
+        tr = (lambda a: np.log(a)) if spec["log"] else (lambda a: a)
+        scale = 1.0 + max(float(np.max(np.abs(tr(pT.arr(x))))) for x in spec["names"])
+        for x in spec["names"]:
+            d = np.abs(tr(pP.arr(x)) - tr(pT.arr(x)))
+            w = float(np.max(d)) if np.all(np.isfinite(d)) else float("inf")
+            col.check(w <= 10 * rtol * scale, "variants:path_not_recovered",
+                      lambda: f"variant {v}, {x}: planned path differs from that variant's truth by {w:.3e} ({mode}, {method})\n{lm.source(spec)}")
+        a = np.nan_to_num(pP.arr(sh))
+        b = np.nan_to_num(pT.arr(sh))
+        col.check(float(np.max(np.abs(a - b))) <= 10 * rtol * scale, "variants:shock_not_recovered",
+                  lambda: f"variant {v}, {sh}: {a.tolist()} expected {b.tolist()} ({mode}, {method})")
+    col.done()
+    return {"labels": ["judged"], "nontrivial": True}
+
+
 SUBCHECKS = [
     HypSub("swaps", _case, _check, _classify, budget={"quick": 1200, "thorough": 16000}),
+    HypSub("swaps_variants", _variant_case, _check_variants, _classify_variant, budget={"quick": 400, "thorough": 6000}),
 ]
